@@ -1589,6 +1589,8 @@ func realCase(e *lp.Exec, c cfg) {
 		mu.Unlock()
 	})
 	g.OnClose(func(nc *nbio.Conn, err error) { mu.Lock(); closed[nc] = errClass(err); mu.Unlock() })
+	var opened []*nbio.Conn
+	g.OnOpen(func(nc *nbio.Conn) { mu.Lock(); opened = append(opened, nc); mu.Unlock() })
 	if err := g.Start(); err != nil {
 		e.P("#real start failed %v", err)
 		return
@@ -1772,6 +1774,57 @@ func realCase(e *lp.Exec, c cfg) {
 		case <-time.After(3 * time.Second):
 		}
 	}
+	// the peer half-closes while OUR side has a write backlog (the peer is not reading, the writing event is armed): the
+	// FIN must still end the conn (it is reported as EPOLLRDHUP only if the registration that arms the writing event asks
+	// for it) — otherwise, level-triggered, the poller reads 0 for ever
+	func() {
+		mu.Lock()
+		n0 := len(opened)
+		mu.Unlock()
+		pc2, err := net.Dial(network, g.Addrs[0])
+		if err != nil {
+			return
+		}
+		defer pc2.Close()
+		var sc *nbio.Conn
+		for t0 := time.Now(); time.Since(t0) < 3*time.Second && sc == nil; time.Sleep(time.Millisecond) {
+			mu.Lock()
+			if len(opened) > n0 {
+				sc = opened[len(opened)-1]
+			}
+			mu.Unlock()
+		}
+		if sc == nil {
+			return
+		}
+		chunk := lp.Pattern(256<<10, 3)
+		for i := 0; i < 256 && sc.VerifState().Left == 0; i++ {
+			if _, err := sc.Write(chunk); err != nil {
+				return
+			}
+		}
+		if sc.VerifState().Left == 0 {
+			return // no backlog could be built: nothing to check
+		}
+		switch t := pc2.(type) {
+		case *net.TCPConn:
+			_ = t.CloseWrite()
+		case *net.UnixConn:
+			_ = t.CloseWrite()
+		}
+		ok := false
+		for t0 := time.Now(); time.Since(t0) < 3*time.Second && !ok; time.Sleep(time.Millisecond) {
+			mu.Lock()
+			_, ok = closed[sc]
+			mu.Unlock()
+		}
+		if !ok {
+			c0 := cpuTime()
+			time.Sleep(60 * time.Millisecond)
+			e.Oracle("c02-spin", "%s: peer half-close while a write backlog is armed: no close notification after 3s, %v CPU in a 60ms window with no input pending", tag, cpuTime()-c0)
+			_ = sc.Close()
+		}
+	}()
 	mu.Lock()
 }
 
